@@ -572,11 +572,11 @@ func c1Named(n int, edges ...[2]int) []c1File {
 
 func c1NamedShapes() [][]c1File {
 	return [][]c1File{
-		c1Named(4, [2]int{0, 1}, [2]int{1, 2}, [2]int{2, 3}),                                         // chain
-		c1Named(4, [2]int{0, 1}, [2]int{0, 2}, [2]int{1, 3}, [2]int{2, 3}),                           // diamond
-		c1Named(4, [2]int{0, 1}, [2]int{0, 2}, [2]int{0, 3}),                                         // fan
+		c1Named(4, [2]int{0, 1}, [2]int{1, 2}, [2]int{2, 3}),                                           // chain
+		c1Named(4, [2]int{0, 1}, [2]int{0, 2}, [2]int{1, 3}, [2]int{2, 3}),                             // diamond
+		c1Named(4, [2]int{0, 1}, [2]int{0, 2}, [2]int{0, 3}),                                           // fan
 		c1Named(5, [2]int{0, 1}, [2]int{0, 2}, [2]int{1, 3}, [2]int{2, 3}, [2]int{3, 4}, [2]int{0, 4}), // diamond + tail
-		c1Named(5, [2]int{4, 0}, [2]int{4, 1}, [2]int{0, 2}, [2]int{1, 2}, [2]int{2, 3}),             // importer sorts last
+		c1Named(5, [2]int{4, 0}, [2]int{4, 1}, [2]int{0, 2}, [2]int{1, 2}, [2]int{2, 3}),               // importer sorts last
 	}
 }
 
@@ -1261,7 +1261,8 @@ func TestVerifReplayC01(t *testing.T) {
 		r.familyCompileErrors(ctx)
 	case fn == "getImage" || fn == "getImageFilesRec" || fn == "maybeAddSyntaxUnspecified" || fn == "maybeAddUnusedImport" ||
 		fn == "GetFileInfos" || fn == "GetTargetFileInfos" || fn == "WalkFileInfosWithOnlyTargetFiles" ||
-		fn == "buildImage" || fn == "BuildImage" || fn == "getBuildResult" || fn == "Open" || fn == "addPath" || fn == "NewImageFile":
+		fn == "buildImage" || fn == "BuildImage" || fn == "getBuildResult" || fn == "Open" || fn == "addPath" || fn == "NewImageFile" ||
+		fn == "fileDescriptorProtoToProtoImageFile" || fn == "imageFileToProtoImageFile" || fn == "ImageToProtoImage" || fn == "newParserAccessorHandler":
 		r.familyGetImage(ctx)
 		r.familyKinds(ctx)
 		r.familyModules(ctx)
